@@ -219,8 +219,7 @@ func Run(tier, replay string) {
 	// one function, everything unnamed: deeper histories over the local numbering
 	locals := map[string]string{"MaxSrc": "0", "MaxCalls": "5", "MaxPerGroup": "0", "NewNames": `{""}`, "SetNames": `{"y"}`}
 	if tier == "thorough" {
-		build["MaxCalls"] = "5"
-		parse["MaxCalls"] = "4"
+		build["TermKinds"] = `{"ret", "br", "invoke", "callbr", "catchswitch"}`
 		parse["TermKinds"] = `{"ret", "invoke", "catchswitch"}`
 		locals["MaxCalls"] = "6"
 	}
@@ -233,8 +232,7 @@ func Run(tier, replay string) {
 		"TermKinds": `{"ret", "br", "invoke", "callbr", "catchswitch"}`}
 	if tier == "thorough" {
 		wide["MaxCalls"] = "6"
-		wide["MaxParams"] = "1"
-		wide["NewNames"] = `{"", "x"}`
+		wide["MaxBlocks"] = "2"
 	}
 	emitRun(rep, "terminators", wide, st, 25*time.Minute)
 	// pure queries remembered (TrackQueries): histories "query, edit, print" -- Type() and Succs()
@@ -251,7 +249,7 @@ func Run(tier, replay string) {
 	if tier == "thorough" {
 		// the object graph closed under all calls (no bound on the history), small structure
 		t := mbt.MustTLC(mbt.TLCOpts{Spec: "IRState", Cfg: "IRState.cfg", Workers: 8, Timeout: 25 * time.Minute,
-			Consts: map[string]string{"MaxCalls": "0", "MaxPerGroup": "1", "MaxParams": "1", "MaxBlocks": "1", "MaxInsts": "2",
+			Consts: map[string]string{"MaxCalls": "0", "MaxPerGroup": "1", "MaxParams": "1", "MaxBlocks": "1", "MaxInsts": "1",
 				"InstRes": `{"value", "void"}`, "SetNames": `{""}`, "Observers": `{"PrintModule", "PrintFunc"}`}})
 		if len(t.Violated) > 0 {
 			mbt.Infra("IRState (unbounded history) with ValidateOnPrint = FALSE violates %v: specification error", t.Violated)
